@@ -427,22 +427,36 @@ def rowcount_check(kind, nA, nB, first_is_a):
     return 1
 
 
-def ob_rowcount(kind: int, nA: int, nB: int, first_is_a: bool) -> int:
+def ob_rowcount(kind: int, first: int, other: int, first_is_a: bool) -> int:
     """
+    first / other: row counts of the first mapped dataset and of the other one.  Known finding F15 (a longer second
+    dataset is truncated, a one-row one broadcast) is excluded here and decided by kf_rowcount.
     pre: 0 <= kind <= 1
-    pre: 1 <= nA <= 50 and 1 <= nB <= 50 and nA != nB
+    pre: 1 <= first <= 50 and 1 <= other <= 50 and first != other
+    pre: not (other > first or other == 1)
     post: _ == 0
     """
-    return rowcount_check(kind, nA, nB, first_is_a)
+    return rowcount_check(kind, first if first_is_a else other, other if first_is_a else first, first_is_a)
 
 
-def reach_rowcount(kind: int, nA: int, nB: int, first_is_a: bool) -> int:
+def reach_rowcount(kind: int, first: int, other: int, first_is_a: bool) -> int:
     """
     pre: 0 <= kind <= 1
-    pre: 1 <= nA <= 50 and 1 <= nB <= 50 and nA != nB
+    pre: 1 <= first <= 50 and 1 <= other <= 50 and first != other
+    pre: not (other > first or other == 1)
     post: _ != 0
     """
-    return rowcount_check(kind, nA, nB, first_is_a)
+    return rowcount_check(kind, first if first_is_a else other, other if first_is_a else first, first_is_a)
+
+
+def kf_rowcount(kind: int, first: int, other: int, first_is_a: bool) -> int:
+    """
+    pre: 0 <= kind <= 1
+    pre: 1 <= first <= 50 and 1 <= other <= 50 and first != other
+    pre: other > first or other == 1
+    post: _ == 0
+    """
+    return rowcount_check(kind, first if first_is_a else other, other if first_is_a else first, first_is_a)
 
 
 def bad_source_check(what, kind):
